@@ -28,7 +28,7 @@ Definition nofilt : filt := Filt [] [].
 Ltac c13_unfold :=
   cbv beta iota zeta delta
     [enc out nofilt nth hd tl map repeat app rev fnum fden
-     ev_re ev_im nrm2 mag2 gain_at
+     ev_re_from ev_im_from nrm2 mag2 gain_at
      lowpass_pole_x lowpass_pole_R lowpass_pole highpass_pole_x highpass_pole_R highpass_pole
      lowpass_z_R lowpass_z highpass_z_R highpass_z
      lowpass_pole_exp_R lowpass_pole_exp highpass_pole_exp_R highpass_pole_exp
